@@ -1,4 +1,151 @@
-(* C14 - placeholder while the harness is brought up *)
-From V Require Import Run.Loader.
-Example C14_placeholder : True. Proof. exact I. Qed.
-Print Assumptions C14_placeholder.
+(* C14 - Program reload preserves state and never duplicates series.
+   Statements only; proofs live in Proofs/LoaderReload.v.
+   Models: Metrics/StoreAdd.v ([add true] is Store.Add after "fix: keep the
+   pending expiry of label values when a program is reloaded", [add false] the
+   code before it), Run/Loader.v (CompileAndRun with the SHA-256 comparison
+   modelled as identity of source texts; [compile] and [vmstep] are oracles). *)
+From V Require Import Metrics.StoreAdd Run.Loader Proofs.StoreAddProofs Proofs.LoaderIsolation Proofs.LoaderReload.
+Local Open Scope N_scope.
+
+(* reloading the text that is already running changes nothing at all *)
+Theorem C14_identical_noop :
+  forall (c1 c2 omit : bool) compile st p src hd,
+    ps_handle (getp p st) = Some hd -> h_src hd = src ->
+    load_r c1 c2 omit compile st p src = (st, LSame).
+Proof. exact identical_noop. Qed.
+
+(* a load that fails to compile leaves the store, every program's metric
+   objects and data, and every running version (hence every later update)
+   exactly as they were; only prog_load_errors_total moves *)
+Theorem C14_failed_compile_noop :
+  forall (c1 c2 omit : bool) compile st p src,
+    compile p src = None -> visible_eq st (load c1 c2 omit compile st p src).
+Proof. exact failed_compile_noop. Qed.
+
+(* FULL STATEMENT (DESIGN.md C14_keep_decl_keeps_data), at the level of a whole
+   load:  if p runs a version whose metric table holds (o, d), the entry
+   (p, o, d) is the store's only entry of p under d's name with d's type and
+   position, and the new text compiles to a table holding the same descriptor d
+   at object o', with pairwise distinct exported names, then after a successful
+   load every tuple of o has, in o', the same datum (value and time) and the
+   same expiry.
+   PROVED HERE: the statement for the Store.Add call that registers (o', d) --
+   the only step of the load that touches the bucket of d's name or the label
+   values of o' when exported names are distinct (C06_add_frame covers the
+   other Add calls of the same load for the store; that they leave o, o' and
+   the data heap alone is by construction of [add], not yet stated as a lemma).
+   Every cell of the old metric -- the datum object itself, hence value and
+   time, AND the pending expiry -- is found under the same tuple in the new
+   metric; the old entry is dropped and the new one is the only entry left with
+   that program, type and position, so no series is duplicated. *)
+Theorem C14_keep_decl_keeps_data_partial :
+  forall idx h p o o' d pre post,
+    entries_of idx (d_name d) = pre ++ mkentry p o d :: post ->
+    (forall v, In v (pre ++ post) -> matches p d v = false) ->
+    kind_conflict (entries_of idx (d_name d)) d = false ->
+    o <> o' ->
+    NoDup (map sl_labels (obj_lvs h o)) -> NoDup (map sl_labels (obj_lvs h o')) ->
+    exists idx' h',
+      add true idx h p o' d = Some (idx', h') /\
+      entries_of idx' (d_name d) = pre ++ post ++ [mkentry p o' d] /\
+      ph_data h' = ph_data h /\
+      obj_lvs h' o = obj_lvs h o /\
+      forall ls x, lv_find ls (obj_lvs h o) = Some x ->
+        lv_find ls (obj_lvs h' o') = Some (mkslv ls (sl_datum x) (sl_expiry x)).
+Proof. intros. apply (add_keeps_data true); assumption. Qed.
+
+(* no duplicate is left by a reload that keeps name, type and position: after
+   the Add, the new metric is the only entry matching (program, type, source) *)
+Theorem C14_no_dup_series_partial :
+  forall (ce : bool) idx h p o o' d pre post idx' h',
+    entries_of idx (d_name d) = pre ++ mkentry p o d :: post ->
+    (forall v, In v (pre ++ post) -> matches p d v = false) ->
+    kind_conflict (entries_of idx (d_name d)) d = false ->
+    o <> o' ->
+    NoDup (map sl_labels (obj_lvs h o)) -> NoDup (map sl_labels (obj_lvs h o')) ->
+    add ce idx h p o' d = Some (idx', h') ->
+    filter (matches p d) (entries_of idx' (d_name d)) = [mkentry p o' d].
+Proof.
+  intros ce idx h p o o' d pre post idx' h' B U K NO N1 N2 A.
+  destruct (add_keeps_data ce idx h p o o' d pre post B U K NO N1 N2) as (i & g & A' & E & _).
+  rewrite A in A'. injection A' as <- <-. rewrite E, app_assoc, filter_app.
+  assert (Z : filter (matches p d) (pre ++ post) = []).
+  { induction (pre ++ post) as [|v l IH]; [reflexivity|]. cbn [filter].
+    rewrite (U v) by (left; reflexivity). apply IH. intros w I. apply U. right. exact I. }
+  rewrite Z. cbn [app filter]. unfold matches at 1. cbn [e_prog e_decl].
+  rewrite !bytes_eqb_refl, N.eqb_refl. reflexivity.
+Qed.
+
+(* ---- witnesses (replayed on the implementation by harness/c14) ---- *)
+Definition w_p : bytes := [112].
+Definition w_q : bytes := [113].
+Definition w_g (src : bytes) : decl := mkdecl [103] 2 0 [[107]] src false.
+Definition w_x (src : bytes) : decl := mkdecl [120] 1 0 [] src false.
+Definition w_y (k : N) : decl := mkdecl [121] k 0 [] [49] false.
+
+(* version 0 and version 1 (a comment appended) both declare `gauge g by k` at
+   the same place; line 0 sets g[u], line 1 is `del g[u] after 1h` *)
+Definition w1_compile (p : bytes) (src : N) : option (list decl) := Some [w_g [49]].
+Definition w1_vmstep (p : bytes) (src l : N) : list effect :=
+  if N.eqb l 0 then [ESet 0 [[117]] (DInt 1)] else [EExpire 0 [[117]] 3600000000000].
+Definition w1_ops : list op := [OLoad w_p 0; OLine 0 2; OLine 1 3; OLoad w_p 1].
+Definition expiry_after (ce : bool) : list Z :=
+  let st := run_from ce true false w1_compile w1_vmstep st_empty w1_ops in
+  match ps_handle (getp w_p st) with
+  | Some hd => match h_objs hd with
+               | (o, _) :: _ => map sl_expiry (obj_lvs (ps_heap (getp w_p st)) o)
+               | [] => []
+               end
+  | None => []
+  end.
+
+(* the code before the repair forgets the pending expiry; the repaired code keeps it *)
+Theorem C14_expiry_dropped_refuted :
+  expiry_after false = [0%Z] /\ expiry_after true = [3600000000000%Z].
+Proof. vm_compute. split; reflexivity. Qed.
+
+(* KNOWN FINDING (model faithful to the code): one comment line above
+   `counter x` moves the declaration; the old x stays in the store beside the
+   new one, both with the label set {} *)
+Definition w2_compile (p : bytes) (src : N) : option (list decl) :=
+  if N.eqb src 0 then Some [w_x [49]] else Some [w_x [50]].
+Definition w2_vmstep (p : bytes) (src l : N) : list effect := [EInc 0 [] 1].
+Theorem C14_moved_decl_refuted :
+  let st := run_from true true false w2_compile w2_vmstep st_empty [OLoad w_p 0; OLine 0 2; OLoad w_p 1] in
+  map (fun e => (e_prog e, d_name (e_decl e), map sl_labels (obj_lvs (ps_heap (getp w_p st)) (e_id e))))
+      (entries_of (st_index st) [120])
+  = [(w_p, [120], [[]]); (w_p, [120], [[]])].
+Proof. vm_compute. reflexivity. Qed.
+
+(* KNOWN FINDING: q declares gauge y; p declares counter x, counter y: the load
+   of p is refused at y but x stays registered although p is not running *)
+Definition w3_compile (p : bytes) (src : N) : option (list decl) :=
+  if bytes_eqb p w_q then Some [w_y 2] else Some [w_x [49]; w_y 1].
+Theorem C14_failed_register_refuted :
+  let st0 := load true true false w3_compile st_empty w_q 0 in
+  let (st1, r) := load_r true true false w3_compile st0 w_p 0 in
+  r = LRefused /\ ps_handle (getp w_p st1) = None /\
+  entries_of (st_index st0) [120] = [] /\ length (entries_of (st_index st1) [120]) = 1%nat.
+Proof. vm_compute. repeat split; reflexivity. Qed.
+
+(* non-vacuity of C14_keep_decl_keeps_data_partial: the state before the reload
+   in the expiry witness satisfies its hypotheses, with a cell that carries
+   value 1, time 2 and a pending expiry *)
+Example C14_keep_applies :
+  let st := run_from true true false w1_compile w1_vmstep st_empty [OLoad w_p 0; OLine 0 2; OLine 1 3] in
+  let h := fst (alloc_obj (ps_heap (getp w_p st)) (w_g [49])) in
+  entries_of (st_index st) [103] = [] ++ mkentry w_p 0 (w_g [49]) :: [] /\
+  kind_conflict (entries_of (st_index st) [103]) (w_g [49]) = false /\
+  map (fun x => (sl_labels x, dv (datum_of h (sl_datum x)), dt (datum_of h (sl_datum x)), sl_expiry x)) (obj_lvs h 0)
+    = [([[117]], DInt 1, 2%Z, 3600000000000%Z)] /\
+  obj_lvs h 1 = [].
+Proof. vm_compute. repeat split; reflexivity. Qed.
+
+Print Assumptions C14_identical_noop.
+Print Assumptions C14_failed_compile_noop.
+Print Assumptions C14_keep_decl_keeps_data_partial.
+Print Assumptions C14_no_dup_series_partial.
+Print Assumptions C14_expiry_dropped_refuted.
+Print Assumptions C14_moved_decl_refuted.
+Print Assumptions C14_failed_register_refuted.
+Print Assumptions C14_keep_applies.
